@@ -1025,36 +1025,102 @@ def case_list(tier, seed):
     cases = []
     cases += family_binary_logit(rng, 12 if q else 90, nrows + 3)
     cases += family_mnl3(rng, 8 if q else 60, nrows + 3)
-    cases += family_closed_forms(rng, 28 if q else 210, nrows)
-    cases += family_operators(rng, 3 if q else 24, nrows)
+    cases += family_closed_forms(rng, 28 if q else 140, nrows)
+    cases += family_operators(rng, 3 if q else 16, nrows)
     cases += family_no_database(rng, 8 if q else 48)
     return cases
 
 
+def supervise(tier, seed, nparts, deadline, prefix, died_clause):
+    """run the worker processes; returns (list of the workers' result dicts, number of respawns).  Everything the
+    workers write lives under one temporary directory that is removed here, whatever happens."""
+    root = tempfile.mkdtemp(prefix=prefix)
+    results, respawns, procs = [], 0, {}
+
+    def spawn(part, start):
+        spec = {'tier': tier, 'seed': seed, 'part': part, 'nparts': nparts, 'start': start, 'deadline': deadline,
+                'root': root}
+        return subprocess.Popen([sys.executable, os.path.abspath(__file__), '--worker', json.dumps(spec)],
+                                stdout=subprocess.PIPE, stderr=subprocess.PIPE, text=True)
+    try:
+        for part in range(nparts):
+            procs[part] = spawn(part, 0)
+        while procs:
+            for part in list(procs):
+                out, err = procs[part].communicate()
+                code = procs[part].returncode
+                del procs[part]
+                line = out.strip().splitlines()[-1] if out.strip() else ''
+                try:
+                    res = json.loads(line)
+                    if not isinstance(res, dict) or 'nfail' not in res:
+                        raise ValueError
+                except ValueError:
+                    # the worker died (e.g. a crash inside the engine): take what it had finished, record the item it
+                    # was working on and resume behind it
+                    try:
+                        with open(os.path.join(root, 'state_%d.json' % part)) as fh:
+                            state = json.load(fh)
+                        os.remove(os.path.join(root, 'state_%d.json' % part))
+                        res = state['result']
+                        res['nfail'] += 1
+                        res['failures'].append({'clause': died_clause, 'case': {'item': state['what']},
+                                                'expected': 'a result', 'got': 'the process died (exit code %s): %s'
+                                                % (code, (err or '')[-300:])})
+                        key = died_clause + ' | process died'
+                        res['hist'][key] = res['hist'].get(key, 0) + 1
+                        res['resume'] = state['current'] + 1
+                    except (OSError, ValueError, KeyError):
+                        res = {'cases': 0, 'nfail': 1, 'hist': {'harness | no result line': 1}, 'resume': None,
+                               'timed_out': False,
+                               'failures': [{'clause': 'harness', 'case': {'worker': part}, 'expected': 'a result line',
+                                             'got': (err or out)[-600:]}]}
+                results.append(res)
+                if res.get('resume') is not None and respawns < 40:
+                    respawns += 1
+                    procs[part] = spawn(part, res['resume'])
+    finally:
+        for pr in procs.values():
+            try:
+                pr.kill()
+            except OSError:
+                pass
+        shutil.rmtree(root, ignore_errors=True)
+    return results, respawns
+
+
+def save_state(root, part, state):
+    tmp = os.path.join(root, 'state_%d.tmp' % part)
+    with open(tmp, 'w') as fh:
+        json.dump(state, fh)
+    os.replace(tmp, os.path.join(root, 'state_%d.json' % part))
+
+
 def worker_main(spec):
     tier, seed, part, nparts, start = spec['tier'], spec['seed'], spec['part'], spec['nparts'], spec['start']
-    tmp = tempfile.mkdtemp(prefix='c02w_')
-    os.chdir(tmp)
+    root = spec['root']
+    os.chdir(tempfile.mkdtemp(prefix='w%d_' % part, dir=root))
     ck = Checker(tier, seed)
     cases = case_list(tier, seed)
     resume, timed_out = None, False
-    try:
-        for pos in range(start, len(cases)):
-            if pos % nparts != part:
-                continue
-            if time.time() > spec['deadline']:
-                timed_out = True
-                break
-            try:
-                ck.run(pos, cases[pos], with_fd=True)
-            except Poisoned:
-                resume = pos + 1
-                break
-    finally:
-        os.chdir('/')
-        shutil.rmtree(tmp, ignore_errors=True)
-    print(json.dumps({'cases': ck.cases, 'failures': [x for x in ck.failures if x is not None], 'nfail': len(ck.failures),
-                      'resume': resume, 'hist': ck.hist, 'ncases': len(cases), 'timed_out': timed_out}))
+
+    def result():
+        return {'cases': ck.cases, 'failures': [x for x in ck.failures if x is not None], 'nfail': len(ck.failures),
+                'resume': resume, 'hist': ck.hist, 'ncases': len(cases), 'timed_out': timed_out}
+    for pos in range(start, len(cases)):
+        if pos % nparts != part:
+            continue
+        if time.time() > spec['deadline']:
+            timed_out = True
+            break
+        save_state(root, part, {'current': pos, 'what': (cases[pos]['tag'] + ' ' + show(cases[pos]['node']))[:600],
+                                'result': result()})
+        try:
+            ck.run(pos, cases[pos], with_fd=True)
+        except Poisoned:
+            resume = pos + 1
+            break
+    print(json.dumps(result()))
 
 
 def main():
@@ -1065,36 +1131,16 @@ def main():
     seed = int(sys.argv[2]) if len(sys.argv) > 2 else 0
     t0 = time.time()
     deadline = t0 + (50 if tier == 'quick' else 560)
-    nparts = 4 if tier == 'quick' else 8
-
-    def spawn(part, start):
-        spec = {'tier': tier, 'seed': seed, 'part': part, 'nparts': nparts, 'start': start, 'deadline': deadline}
-        return subprocess.Popen([sys.executable, os.path.abspath(__file__), '--worker', json.dumps(spec)],
-                                stdout=subprocess.PIPE, stderr=subprocess.PIPE, text=True)
-    procs = {part: spawn(part, 0) for part in range(nparts)}
-    cases, failures, nfail, respawns, hist, ncases, timed_out = 0, [], 0, 0, {}, 0, False
-    while procs:
-        for part in list(procs):
-            out, err = procs[part].communicate()
-            del procs[part]
-            line = out.strip().splitlines()[-1] if out.strip() else ''
-            try:
-                res = json.loads(line)
-            except ValueError:
-                nfail += 1
-                failures.append({'clause': 'harness', 'case': {'worker': part}, 'expected': 'a result line',
-                                 'got': (err or out)[-800:]})
-                continue
-            cases += res['cases']
-            nfail += res['nfail']
-            failures += res['failures']
-            ncases = res['ncases']
-            timed_out = timed_out or res['timed_out']
-            for k, v in res['hist'].items():
-                hist[k] = hist.get(k, 0) + v
-            if res['resume'] is not None and respawns < 40:
-                respawns += 1
-                procs[part] = spawn(part, res['resume'])
+    results, respawns = supervise(tier, seed, 6 if tier == 'quick' else 8, deadline, 'c02_', 'value')
+    cases, failures, nfail, hist, ncases, timed_out = 0, [], 0, {}, 0, False
+    for res in results:
+        cases += res['cases']
+        nfail += res['nfail']
+        failures += res['failures']
+        ncases = res.get('ncases', ncases)
+        timed_out = timed_out or res['timed_out']
+        for k, v in res['hist'].items():
+            hist[k] = hist.get(k, 0) + v
     for k in sorted(hist):
         print('FAIL', hist[k], k)
     print('elapsed %.1f s, respawns %d, failures in total %d' % (time.time() - t0, respawns, nfail))
